@@ -161,9 +161,14 @@ fn execute(c: &Case, src: &mut dyn FnMut(&View) -> Option<Op>, cx: &mut Cx) -> O
         Err(_) => {
             let msg = PANIC.lock().unwrap().clone();
             if IN_LIB.swap(false, Relaxed) {
-                // stable signature: source file + message with the numbers blanked
-                let norm: String = msg.chars().map(|c| if c.is_ascii_digit() { '#' } else { c }).take(90).collect();
-                Outcome::Violation(format!("{}.panic:{}", c.target, norm.replace("##", "#").replace("##", "#")), format!("library panicked: {msg}"))
+                // stable signature: source file + message, every run of digits blanked to one '#'
+                let mut norm = String::new();
+                for ch in msg.chars().map(|c| if c.is_ascii_digit() { '#' } else { c }) {
+                    if !(ch == '#' && norm.ends_with('#')) && norm.len() < 80 {
+                        norm.push(ch);
+                    }
+                }
+                Outcome::Violation(format!("{}.panic:{norm}", c.target), format!("library panicked: {msg}"))
             } else {
                 Outcome::Harness(format!("harness panic: {msg}"))
             }
@@ -245,7 +250,10 @@ impl Run {
                 break;
             }
             let mut rng = master.fork();
-            let target = if let Some(t) = self.only { t } else if small { TARGETS[(index % 7) as usize] } else { *rng.pick(&["reasm", "reasm", "reasm", "reasm", "reasm", "reasm", "iset8", "iset8", "iset64", "isetpn", "ack", "ack", "map", "win"]) };
+            let target = if let Some(t) = self.only { t } else if small {
+                // Miri is here for the unsafe code, which is all in the reassembler
+                ["reasm", "reasm", "map", "reasm", "ack", "reasm", "reasm", "win", "reasm", "iset8", "reasm", "isetpn", "reasm", "iset64"][(index % 14) as usize]
+            } else { *rng.pick(&["reasm", "reasm", "reasm", "reasm", "reasm", "reasm", "iset8", "iset8", "iset64", "isetpn", "ack", "ack", "map", "win"]) };
             let param = match target {
                 "ack" => rng.range(1, 6),
                 "reasm" | "map" | "win" => 0,
@@ -339,7 +347,7 @@ fn main() {
             _ => run.random(iters, false, 0),
         }
     }
-    let Run { mut sum, cx, .. } = run;
+    let Run { mut sum, cx, mode, .. } = run;
     for (k, v) in &cx.n {
         sum.count(k, *v);
     }
